@@ -297,8 +297,9 @@ class Future(BaseFuture):
         if isinstance(other, Future):
             other_operand = self.builder._mem_mgr.get_inactive_register(activate=True)
             other_tmp_register = other_operand
+            # NOTE `other` is only read: storing it back would undo the addition
+            # when `other` is the same array entry as this Future
             load_commands += other.get_load_commands(other_tmp_register)
-            store_commands += other._get_store_commands(other_tmp_register)
         elif isinstance(other, operand.Register) or isinstance(other, int):
             other_operand = other
         else:
@@ -472,8 +473,9 @@ class RegFuture(BaseFuture):
         if isinstance(other, Future):
             other_operand = self.builder._mem_mgr.get_inactive_register(activate=True)
             other_tmp_register = other_operand
+            # NOTE `other` is only read: storing it back would undo the addition
+            # when `other` is the same array entry as this Future
             load_commands += other.get_load_commands(other_tmp_register)
-            store_commands += other._get_store_commands(other_tmp_register)
         elif isinstance(other, operand.Register) or isinstance(other, int):
             other_operand = other
         else:
